@@ -29,6 +29,9 @@ def run(ctx):
                       "one watcher whose parameter list holds each name once, without change filter or callback", floor=1)
     ctx.rule("R06.s", "a copy keeps the one-watcher-per-method structure: Parameterized.__setstate__ interpreted on a saved watcher table in which one watcher is listed under two parameters "
                       "re-creates it as ONE object (batched dispatch tells watchers apart by identity) -- shared with R17.i", floor=1)
+    ctx.rule("R06.q", "depends model, batch rebind: Parameters._update_deps('sub') -> _call_watcher(rebuilt watcher, second event) -> _batch_call_watchers interpreted in sequence with a batch open and the "
+                      "method's watcher on the path root already queued by an earlier replacement of the same batch: the flush executes exactly one watcher on behalf of the method (once per batch), "
+                      "and a watcher of another party queued alongside still runs once", floor=1)
     ctx.rule("R06.c", "the construction path reaches the installation: Parameterized.__init__ calls param._update_deps(init=True) after the values were set, and the depends decorator records "
                       "watch / on_init / the dependency list in _dinfo, the only thing the metaclass reads", floor=2)
     ctx.not_decided += ["that a watcher runs its callback once per batch and only on a change (C05 / C03 decide that for every watcher, these included)",
@@ -61,3 +64,4 @@ def run(ctx):
     setstate_watcher_table(ctx, "R06.s")
     depends_model.report_method_recursion(ctx, "R06.r")
     depends_model.report(ctx, "R06.a", "R06.b")
+    depends_model.report_batch_rebind(ctx, "R06.q")
